@@ -298,6 +298,15 @@ impl GlobalCollector {
                 }
                 loop {
                     match rx.try_recv() {
+                        #[cfg(fastrace_verif)]
+                        Ok(Some(ref cmd))
+                            if {
+                                verif_impl::log_recv(cmd);
+                                false
+                            } =>
+                        {
+                            unreachable!()
+                        }
                         Ok(Some(CollectCommand::StartCollect(cmd))) => start_collects.push(cmd),
                         Ok(Some(CollectCommand::DropCollect(cmd))) => drop_collects.push(cmd),
                         Ok(Some(CollectCommand::CommitCollect(cmd))) => commit_collects.push(cmd),
@@ -709,6 +718,29 @@ pub(crate) mod verif_impl {
             // submitted to is known
             for item in c.collect_token.iter().skip(1) {
                 crate::verif::point(crate::verif::P_SUBMIT_ITEM, 0, item.collect_id as u64);
+            }
+        }
+    }
+
+    pub(crate) fn log_recv(cmd: &CollectCommand) {
+        match cmd {
+            CollectCommand::StartCollect(c) => {
+                crate::verif::point(crate::verif::P_RECV, 0, c.collect_id as u64)
+            }
+            CollectCommand::DropCollect(c) => {
+                crate::verif::point(crate::verif::P_RECV, 1, c.collect_id as u64)
+            }
+            CollectCommand::CommitCollect(c) => {
+                crate::verif::point(crate::verif::P_RECV, 2, c.collect_id as u64)
+            }
+            CollectCommand::SubmitSpans(c) => {
+                for (i, item) in c.collect_token.iter().enumerate() {
+                    crate::verif::point(
+                        crate::verif::P_RECV,
+                        3 | ((i as u64) << 8),
+                        item.collect_id as u64,
+                    );
+                }
             }
         }
     }
